@@ -25,7 +25,9 @@ RULE = ("scenario = (hops 1..3, phase in ready / mid-transfer / building, teardo
         "originator vanishes) x fault set over the flights of the scenario (each of drop / duplicate / delay 30 s): all "
         "single faults over the first 24 flights exhaustively per scenario (thorough adds all fault "
         "pairs for 2-hop scenarios), Hypothesis-drawn larger fault sets; plus join-limit and "
-        "relay_early sub-checks with drawn limits. Non-trivial = at least one control message (create/created/extend/"
+        "relay_early sub-checks with drawn limits; race = the first data cell reaches the exit while a teardown's linger "
+        "runs out and opening an outside socket takes virtual time (latencies x gap grid + drawn); clause R3: with no "
+        "fault at all the destroy message removes every entry of X within remove_tunnel_delay + 1 s. Non-trivial = at least one control message (create/created/extend/"
         "extended/destroy) of X was lost or delayed so that a timer has to reclaim; distinct = (scenario, fault set).")
 ASSUMPTIONS = [
     "deadline D = circuit_timeout + unstable_timeout + max_time_inactive + sweep interval + ping interval + "
